@@ -81,7 +81,10 @@ fn generate_try_from(ty_name: &syn::Ident, fields: &[syn::Field]) -> TokenStream
         let line = if field_type.to_token_stream().to_string() == "()" {
             quote! {
                 #sum
-                match tkp.parse_next(::prototk::FieldNumber::must(#num), #dir) {
+                // NOTE(rescrv):  Into writes unit fields with TupleKey::extend, which always tags
+                // them Forward (a unit has a single value, so a direction changes nothing).
+                let _ = #dir;
+                match tkp.parse_next(::prototk::FieldNumber::must(#num), ::tuple_key::Direction::Forward) {
                     Ok(x) => x,
                     Err(e) => {
                         return Err(::tuple_key::could_not_extend(#num).with_string_field("cause", e));
